@@ -8,7 +8,7 @@ inline bool isTurned(CellOrientation o) { return o == CellOrientation::W || o ==
 inline int prescribed(CellRowPolarity pol, CellOrientation row, CellOrientation cur) {
   int r = (int)row;
   // opposite: N<->FS, S<->FN, E<->FW, W<->FE
-  static const int opp[8] = {5, 4, 7, 6, 1, 0, 2, 3};
+  static const int opp[8] = {5, 4, 7, 6, 1, 0, 3, 2};
   switch (pol) {
     case CellRowPolarity::ANY: return (int)cur;
     case CellRowPolarity::SAME: return r;
